@@ -145,6 +145,12 @@ FTok(lazy) == { <<Rule(<<Dl(".", FALSE), I("a", FALSE)>>, <<Decl(p[1], p[2])>>)>
                <<At("layer", <<I("a", TRUE), Com(FALSE), I("b", TRUE)>>, "stmt", <<>>), Rule(<<I("p", FALSE)>>, Red)>>,
                <<At("page", <<Col(TRUE), I("first", FALSE)>>, "decls", <<Decl("margin", <<Dim(3, "rpx", FALSE)>>)>>)>>,
                <<At("unknown", <<I("x", TRUE), Dim(3, "rpx", TRUE)>>, "stmt", <<>>)>>,
+               (* empty constructs *)
+               <<Rule(<<Dl(".", FALSE), I("a", FALSE)>>, <<>>), Rule(<<Dl(".", FALSE), I("b", FALSE)>>, Red)>>,
+               <<At("media", <<I("screen", TRUE)>>, "rules", <<>>), Rule(<<Dl(".", FALSE), I("b", FALSE)>>, Red)>>,
+               <<At("media", <<I("screen", TRUE)>>, "rules", <<Rule(<<Dl(".", FALSE), I("a", FALSE), Dl(".", TRUE), I("c", FALSE)>>, <<>>)>>), Rule(<<I("p", FALSE)>>, <<>>)>>,
+               <<At("font-face", <<>>, "decls", <<>>), At("keyframes", <<I("k", TRUE)>>, "keyframes", <<>>), At("layer", <<I("l", TRUE)>>, "rules", <<>>)>>,
+               <<At("keyframes", <<I("k", TRUE)>>, "keyframes", <<Frame(<<I("from", FALSE)>>, <<>>), Frame(<<Pct(4, FALSE), Com(FALSE), I("to", TRUE)>>, <<Decl("left", <<Dim(3, "rpx", FALSE)>>)>>)>>)>>,
                <<Rule(<<Hs("i1", FALSE), Dl(".", TRUE), I("a", FALSE)>>, <<Decl("color", <<I("red", FALSE)>>), DeclL("top", <<Num(1, FALSE)>>)>>)>> }
 
 -----------------------------------------------------------------------------
@@ -191,9 +197,12 @@ ImportOpts == {[NoOpt EXCEPT !.importSign = s, !.prefix = p] : s \in {"none", "I
 Sheets == CASE Family = "sel" -> FSel(0) [] Family = "val" -> FVal(0) [] Family = "tok" -> FTok(0) [] Family = "calc" -> FCalc(0)
             [] Family = "host" -> FHost(0) [] Family = "import" -> FImport(0)
 SelOpts == {NoOpt, [NoOpt EXCEPT !.prefix = "p", !.sign = "S"], [NoOpt EXCEPT !.prefix = "~E~x"], [NoOpt EXCEPT !.prefix = ""]}
-Opts == CASE Family = "sel" -> (IF Scale = "quick" THEN SelOpts ELSE PrefixOpts) [] Family = "tok" -> PrefixOpts [] Family = "val" -> {NoOpt, [NoOpt EXCEPT !.prefix = "p"]}
+(* every option on at once: the rewrites must not disturb one another *)
+AllOn == [prefix |-> "p", sign |-> "S", host |-> TRUE, hostIs |-> "IS", importSign |-> "IMP"]
+FamilyOpts == CASE Family = "sel" -> (IF Scale = "quick" THEN SelOpts ELSE PrefixOpts) [] Family = "tok" -> PrefixOpts [] Family = "val" -> {NoOpt, [NoOpt EXCEPT !.prefix = "p"]}
           [] Family = "calc" -> {NoOpt}
           [] Family = "host" -> HostOpts [] Family = "import" -> ImportOpts
+Opts == FamilyOpts \cup {AllOn}
 
 Init == sheet \in {Label(s) : s \in Sheets} /\ opt \in Opts
 Next == UNCHANGED vars
